@@ -336,7 +336,8 @@ func c05Run(c *Ctx) {
 				}
 				if v, ok := ptrGet(c05Universe[du], rawPtr); ok {
 					m, _ := v.(map[string]interface{})
-					for _, unset := range []string{"not", "items", "additionalProperties", "additionalItems", "xml", "externalDocs", "schema", "get", "default", "title", "maximum"} {
+					for _, unset := range []string{"not", "items", "additionalProperties", "additionalItems", "xml", "externalDocs", "schema", "get", "default", "title", "maximum",
+						"patternProperties", "dependencies", "oneOf", "anyOf", "required", "enum", "headers", "parameters", "tags"} {
 						if _, has := m[unset]; !has && !esc {
 							bads = append(bads, append(append([]string{}, nd.toks...), unset))
 						}
